@@ -275,8 +275,55 @@ fn extern_signature_map(req: &Value) -> Value {
     }
 }
 
+/// ScheduledProgram::from_program with the default handler: per block the dependency graph's nodes and edges.
+fn schedule_graph(req: &Value) -> Value {
+    use quil_rs::instruction::DefaultHandler;
+    use quil_rs::program::scheduling::ScheduledProgram;
+    let program = match Program::from_str(req["program"].as_str().unwrap()) {
+        Ok(p) => p,
+        Err(e) => return json!({"input_error": format!("{e:?}")}),
+    };
+    let sp = match ScheduledProgram::from_program(&program, &DefaultHandler) {
+        Ok(sp) => sp,
+        Err(e) => return json!({"err": format!("{e:?}")}),
+    };
+    let mut blocks = vec![];
+    for b in sp.basic_blocks() {
+        let g = b.get_dependency_graph();
+        let nodes: Vec<Value> = g.nodes().map(|n| dbg(&n)).collect();
+        let edges: Vec<Value> = g
+            .all_edges()
+            .map(|(a, c, w)| json!([dbg(&a), dbg(&c), w.iter().map(dbg).collect::<Vec<_>>()]))
+            .collect();
+        blocks.push(json!({
+            "instructions": b.instructions().iter().map(|i| dbg(i)).collect::<Vec<_>>(),
+            "terminator": dbg(b.terminator()),
+            "nodes": nodes,
+            "edges": edges,
+        }));
+    }
+    json!({"blocks": blocks})
+}
+
+/// DefaultHandler::role / is_scheduled for each instruction text.
+fn roles(req: &Value) -> Value {
+    use quil_rs::instruction::{DefaultHandler, InstructionHandler};
+    let mut out = vec![];
+    for t in req["instructions"].as_array().unwrap() {
+        let ins = match parse_instructions(t.as_str().unwrap()) {
+            Ok(v) if v.len() == 1 => v.into_iter().next().unwrap(),
+            Ok(v) => return json!({"input_error": format!("{} instructions", v.len())}),
+            Err(e) => return json!({"input_error": e}),
+        };
+        out.push(json!({"role": format!("{:?}", DefaultHandler.role(&ins)), "scheduled": DefaultHandler.is_scheduled(&ins)}));
+    }
+    json!({"results": out})
+}
+
 pub fn run(op: &str, req: &Value) -> Value {
     match op {
+        "roles" => roles(req),
+        "schedule_graph" => schedule_graph(req),
         "extern_signature_map" => extern_signature_map(req),
         "matching_frames" => matching_frames(req),
         "memory_accesses" => memory_accesses(req),
